@@ -723,6 +723,8 @@ struct IoHarness : Harness {
 
 	const char *name() const override { return "psv_io"; }
 	bool serves(const std::string &p) const override { return p == "C06" || p == "C07" || p == "C08"; }
+	// runs take milliseconds (C06, C07) to a few seconds (C08 enumerations of large tables, thorough)
+	unsigned watchdog_s(const std::string &p, const std::string &tier) const override { return p == "C08" ? (tier == "thorough" ? 600 : 180) : 90; }
 
 	void init() override {
 		shipped.clear();
